@@ -103,7 +103,7 @@ def expected(kind, base, path):
     return ("404",)
 
 
-def run(kind, iface, directory_arg, base, path):
+def run(kind, iface, directory_arg, base, path, mount=None):
     import baize.wsgi as W
     import baize.asgi as A
     mod = W if iface == "wsgi" else A
@@ -112,11 +112,17 @@ def run(kind, iface, directory_arg, base, path):
     AUDIT["on"] = True
     try:
         if iface == "wsgi":
-            rec = run_wsgi(app, wsgi_environ("GET", path))
+            env = wsgi_environ("GET", path)
+            if mount:
+                env["SCRIPT_NAME"] = mount
+            rec = run_wsgi(app, env)
             status = int(rec["status"].split()[0]) if rec["status"] else None
             hdrs = {k.lower(): v for k, v in (rec["headers"] or [])}
         else:
-            rec = run_asgi(app, asgi_scope("GET", path))
+            sc = asgi_scope("GET", path)
+            if mount:
+                sc["root_path"] = mount
+            rec = run_asgi(app, sc)
             status = rec["status"]
             hdrs = {k.decode().lower(): v.decode("latin-1") for k, v in (rec["headers"] or [])}
     finally:
@@ -124,11 +130,11 @@ def run(kind, iface, directory_arg, base, path):
     return rec, status, hdrs, list(AUDIT["paths"])
 
 
-def check(kind, iface, base, path, directory_arg=None):
+def check(kind, iface, base, path, directory_arg=None, mount=None):
     from baize.exceptions import HTTPException
     v = []
     droot = os.path.join(base, "static")
-    rec, status, hdrs, touched = run(kind, iface, directory_arg or droot, base, path)
+    rec, status, hdrs, touched = run(kind, iface, directory_arg or droot, base, path, mount)
     exp = expected(kind, base, path)
     exc = rec["exception"]
     if exc is not None:
@@ -210,7 +216,7 @@ def replay(inputs):
         build_tree(base)
         if inputs.get("chdir_after_construction"):
             return {"violated": chdir_case(inputs["kind"], inputs["iface"], base)}
-        v, exp = check(inputs["kind"], inputs["iface"], base, inputs["path"])
+        v, exp = check(inputs["kind"], inputs["iface"], base, inputs["path"], mount=inputs.get("mount"))
         return {"violated": v, "expected": str(exp[0])}
     finally:
         shutil.rmtree(base, ignore_errors=True)
@@ -310,6 +316,18 @@ def bounded(tier, seed):
                     failures.append({"inputs": {"kind": "Pages", "iface": iface, "path": "/sub", "region": None, "mounted_below": prefix},
                                      "violated": ["Pages mounted below %r: GET /sub redirects to %r, expected ...%s/sub/ (%r)" % (
                                          prefix, loc, _q(prefix, safe="/"), rec["exception"])]})
+        # an application mounted below a prefix whose TEXT is also the name of a directory inside the served one (mount '/sub',
+        # directory static/sub): the path it is handed is already relative to the mount point (Subpaths / the server removed
+        # the prefix) and names the file as it stands - nothing strips the prefix a second time
+        for kind in ("Files", "Pages"):
+            for iface in ("wsgi", "asgi"):
+                for mount in ("/sub", "/static", "/sub/sub"):
+                    for path in ("/sub/a.txt", "/sub/b.txt", "/a.txt", "/sub/", "/sub/page", "/sub/sub/a.txt", "/static/a.txt", "/sub"):
+                        evals += 1
+                        v, exp = check(kind, iface, base, path, mount=mount)
+                        if v and len(failures) < 30:
+                            failures.append({"inputs": {"kind": kind, "iface": iface, "path": path, "region": None, "mount": mount},
+                                             "violated": ["mounted below %r: %s" % (mount, x) for x in v]})
         # ... and the working directory CHANGES between construction and request: the configured directory is the one named at
         # construction time (another tree with the same relative name must not be served instead)
         for kind in ("Files", "Pages"):
